@@ -12,7 +12,6 @@ import traceback
 import unicodedata
 from collections import deque
 from datetime import datetime
-from functools import partial
 from importlib.resources import files
 from typing import (
     TYPE_CHECKING,
@@ -248,6 +247,18 @@ def mw_language_format_date_python(
         return format_with_wiki_timeformat(ctx, datetime.now(), fmt)
 
 
+def bind_args(fn: Callable, *bound: Any) -> Callable:
+    """Like functools.partial(), but as a plain closure.  Lua code receives
+    these callables; a partial object would expose the bound arguments (the
+    processing context, with its database connection and Lua runtime) through
+    its ``args`` attribute."""
+
+    def bound_fn(*args: Any) -> Any:
+        return fn(*bound, *args)
+
+    return bound_fn
+
+
 def call_set_functions(
     ctx: "Wtp", set_functions: Callable[["_LuaTable"], None]
 ) -> None:
@@ -261,35 +272,35 @@ def call_set_functions(
                 "mw_decode_python": mw_text_decode,
                 "mw_encode_python": mw_text_encode,
                 "mw_jsonencode_python": mw_text_jsonencode,
-                "mw_jsondecode_python": partial(mw_text_jsondecode, ctx),
-                "mw_python_get_page_info": partial(get_page_info, ctx),
-                "mw_python_get_page_content": partial(get_page_content, ctx),
+                "mw_jsondecode_python": bind_args(mw_text_jsondecode, ctx),
+                "mw_python_get_page_info": bind_args(get_page_info, ctx),
+                "mw_python_get_page_content": bind_args(get_page_content, ctx),
                 "mw_python_fetch_language_name": fetch_language_name,
-                "mw_python_fetch_language_names": partial(
+                "mw_python_fetch_language_names": bind_args(
                     fetch_language_names, ctx
                 ),
-                "mw_wikibase_getlabel_python": partial(
+                "mw_wikibase_getlabel_python": bind_args(
                     mw_wikibase_getlabel, ctx
                 ),
-                "mw_wikibase_getdesc_python": partial(
+                "mw_wikibase_getdesc_python": bind_args(
                     mw_wikibase_getdescription, ctx
                 ),
-                "mw_wikibase_getEntityIdForCurrentPage_py": partial(
+                "mw_wikibase_getEntityIdForCurrentPage_py": bind_args(
                     mw_wikibase_getEntityIdForCurrentPage, ctx
                 ),
-                "mw_wikibase_getEntityIdForTitle_py": partial(
+                "mw_wikibase_getEntityIdForTitle_py": bind_args(
                     mw_wikibase_getEntityIdForTitle, ctx
                 ),
-                "mw_current_title_python": partial(get_current_title, ctx),
-                "current_frame_python": partial(
+                "mw_current_title_python": bind_args(get_current_title, ctx),
+                "current_frame_python": bind_args(
                     top_lua_stack, ctx.lua_frame_stack
                 ),
-                "mw_site_interwikiMap_py": partial(mw_site_interwikiMap, ctx),
-                "mw_language_format_date_python": partial(
+                "mw_site_interwikiMap_py": bind_args(mw_site_interwikiMap, ctx),
+                "mw_language_format_date_python": bind_args(
                     mw_language_format_date_python, ctx
                 ),
-                "mw_wikibase_getEntity_py": partial(mw_wikibase_getEntity, ctx),
-                "mw_wikibase_getSitelink_py": partial(
+                "mw_wikibase_getEntity_py": bind_args(mw_wikibase_getEntity, ctx),
+                "mw_wikibase_getSitelink_py": bind_args(
                     mw_wikibase_getSitelink, ctx
                 ),
             }
@@ -304,13 +315,13 @@ def set_global_lua_variable(lua, var_name, var_value):
 
 def set_lua_env_funcs(lua, wtp):
     set_global_lua_variable(
-        lua, "_python_append_env", partial(append_lua_stack, wtp.lua_env_stack)
+        lua, "_python_append_env", bind_args(append_lua_stack, wtp.lua_env_stack)
     )
     set_global_lua_variable(
-        lua, "_python_top_env", partial(top_lua_stack, wtp.lua_env_stack)
+        lua, "_python_top_env", bind_args(top_lua_stack, wtp.lua_env_stack)
     )
     set_global_lua_variable(
-        lua, "mw_jsondecode_python", partial(mw_text_jsondecode, wtp)
+        lua, "mw_jsondecode_python", bind_args(mw_text_jsondecode, wtp)
     )
 
 
@@ -344,7 +355,7 @@ def initialize_lua(ctx: "Wtp") -> None:
         set_loader = phase1_result[1]
         clear_loaddata_cache = phase1_result[2]
         # Call the function that sets the Lua loader
-        set_loader(partial(lua_loader, ctx))
+        set_loader(bind_args(lua_loader, ctx))
 
     # Then load the second phase of the sandbox.  This now goes through the
     # new loader and is evaluated in the sandbox.  This mostly implements
